@@ -152,7 +152,7 @@ def tail_coverage_rule(prog, chk):
                 for o in origins(hp, d, t.args[2], transparent=set()):
                     if o.kind == 'agg' and (o.node.adt or "").endswith("ops::range::Range") and _flows_line_end(hp, d, o.node.ops[1]):
                         tails.append(bb)
-        chk.floor("R19.4", "tail bookkeeping calls in highlight_program", len(tails), 2)
+        chk.floor("R19.4", "tail bookkeeping calls in highlight_program", len(tails), 1)
         w = c.escapes(0, tails, c.return_blocks(), after=False)
         if w is None and tails:
             chk.ok("R19.4", "tail-on-every-path", "%d tail calls (lines %s) cut every entry→return path" % (len(tails), sorted({hp.blocks[x].term.line for x in tails})), function=hp.name)
